@@ -12,7 +12,9 @@
           (TailCtx below); the driver puts them in front of `parts`
    asset  "known" | "unknown" | "none"
    tail   shape of the rest of the path (livesim2: see LiveTails; other endpoints: path shape)
-   query  query-string class / Content-Length class / id class
+   query  query-string class / Content-Length class / id class; for /livesim2 also the INSTANT class of the request:
+          "now_ok" (long after the start), "t_start" (exactly at availabilityStartTime), "t_first" (inside the first
+          segment duration after the start), "t_early" (2-3 segment durations after the start, first status-code cycle)
    body   body shape
 
    Allowed(r) is the SET OF OUTCOME CLASSES the property text permits for r.  Outcome classes:
@@ -101,7 +103,7 @@ Must4xx(r) ==
 Benign(r) ==
    /\ \A p \in Params(r) : p.c = "typical" /\ p.k \notin {"modulo", "continuous", "zzz"}
    /\ ~(HasP(r, "segtimeline", Classes) /\ HasP(r, "segtimelinenr", Classes))
-   /\ r.query \in {"now_ok", "now_none", "nowdate_ok", "none"}
+   /\ r.query \in {"now_ok", "now_none", "nowdate_ok", "none", "t_start", "t_first", "t_early"}
 
 Must404(r) ==
    \/ /\ IsLiveGet(r) /\ Benign(r)
@@ -110,10 +112,12 @@ Must404(r) ==
    \/ r.ep = "misc" /\ r.tail = "vod_file" /\ r.asset = "unknown" /\ r.method \in {"GET", "HEAD"}
 
 -----------------------------------------------------------------------------
-(* Waits by design: in chunked low-latency mode (chunkdur_) a media request is answered as the chunks become
-   available in real time; such a request may legitimately outlast the wall-time bound. (The traffic states
+(* Waits by design: in chunked low-latency mode (chunkdur_) a media request for a segment that is being produced is
+   answered as the chunks become available in real time (at most one segment duration); such a request may
+   legitimately outlast the wall-time bound. A request for a segment FAR in the future (tails num_huge, num_ovf) is
+   not such a wait: sleeping until that segment exists (years) is not a deliberate response. (The traffic states
    s/h, also waits by design, are never generated.)                                                      *)
-MayWait(r) == IsLiveGet(r) /\ r.tail \in MediaTails /\ HasP(r, "chunkdur", Classes)
+MayWait(r) == IsLiveGet(r) /\ r.tail \in (MediaTails \ {"num_huge", "num_ovf"}) /\ HasP(r, "chunkdur", Classes)
 
 NonCrash == {"s2xx", "s3xx", "s404", "s4xx", "s5xx"}
 
